@@ -3,7 +3,8 @@ use ckb_types::{
     core::{EpochNumber, EpochNumberWithFraction, ExtraHashView, HeaderView},
     packed::LightClientMessage,
     prelude::*,
-    utilities::merkle_mountain_range::VerifiableHeader,
+    utilities::{compact_to_difficulty, merkle_mountain_range::VerifiableHeader},
+    U256,
 };
 
 use super::{Status, StatusCode};
@@ -49,10 +50,16 @@ impl HeaderUtils for HeaderView {
 // Ref: https://github.com/nervosnetwork/ckb/blob/v0.112.1/util/types/src/utilities/merkle_mountain_range.rs#L212-L241
 pub(crate) trait VerifiableHeaderPatch {
     fn patched_is_valid(&self, mmr_activated_epoch_number: EpochNumber) -> bool;
+    /// `VerifiableHeader::total_difficulty()` panics if the sum doesn't fit into `U256`.
+    fn total_difficulty_overflows(&self) -> bool;
 }
 
 impl VerifiableHeaderPatch for VerifiableHeader {
     fn patched_is_valid(&self, mmr_activated_epoch_number: EpochNumber) -> bool {
+        // The total difficulty is the sum of two numbers supplied by the peer.
+        if self.total_difficulty_overflows() {
+            return false;
+        }
         let mmr_activated_epoch = EpochNumberWithFraction::new(mmr_activated_epoch_number, 0, 1);
         let has_chain_root = self.header().epoch() > mmr_activated_epoch;
         if has_chain_root {
@@ -82,5 +89,13 @@ impl VerifiableHeaderPatch for VerifiableHeader {
         let expected_extra_hash = extra_hash_view.extra_hash();
         let actual_extra_hash = self.header().extra_hash();
         expected_extra_hash == actual_extra_hash
+    }
+
+    fn total_difficulty_overflows(&self) -> bool {
+        let parent_total_difficulty: U256 = self.parent_chain_root().total_difficulty().unpack();
+        let block_difficulty = compact_to_difficulty(self.header().compact_target());
+        parent_total_difficulty
+            .checked_add(&block_difficulty)
+            .is_none()
     }
 }
